@@ -15,7 +15,7 @@ RdErr(R) ==
        IF R.n \notin DOMAIN T THEN "TableDoesNotExist" ELSE MatchErr(T, R.n, R.kind, R.kt, R.vt, TRUE)
 
 Do(R) ==
-  \/ /\ R.e \in {"get", "len", "edge", "range", "mget", "mrange"} /\ RdErr(R) # ""
+  \/ /\ R.e \in {"get", "len", "edge", "range", "mget", "mrange", "rcursor"} /\ RdErr(R) # ""
      /\ IsE(R.r, RdErr(R)) /\ UNCHANGED kvVars
   \/ R.e = "bw"      /\ BeginWrite(R.r)
   \/ R.e = "dur"     /\ SetDurability(R.d, R.r)
@@ -47,6 +47,7 @@ Do(R) ==
   \/ R.e = "cur_open" /\ CurOpen(R.n, R.b, R.upper, R.r)
   \/ R.e = "cur"     /\ CurOp(R.op, R.k, R.v, R.r)
   \/ R.e = "cur_close" /\ CurClose(R.r)
+  \/ R.e = "rcursor" /\ RdErr(R) = "" /\ RCursor(R.src, R.n, R.b, R.upper, R.ops, R.r)
   \/ R.e = "mins"    /\ MInsert(R.n, R.k, R.v, R.r)
   \/ R.e = "mrem"    /\ MRemove(R.n, R.k, R.v, R.r)
   \/ R.e = "mremall" /\ MRemoveAll(R.n, R.k, R.r)
